@@ -292,4 +292,22 @@ theorem hs_stall (cyc : Cfg) (d : DevState) (h : StdState) (n : HIn) (hr : HRel 
     toIdle]
   constructor <;> simp_all
 
+/-- The distributed descriptor handler reports a missing descriptor in the very cycle it is started
+(`data_requested` and `stall` together): STALL, back to IDLE, `expecting_ack` stays clear. -/
+theorem hs_req_stall (cyc : Cfg) (d : DevState) (h : StdState) (n : HIn) (hr : HRel d h)
+    (hs : StreamState d true) :
+    HRel (toIdle { d with expectingAck := false })
+      (stdStep cyc h (hin d (beatH true Desc.stallBeat n) true false false)).1 ∧
+    (let o := muxOut (stdStep cyc h (hin d (beatH true Desc.stallBeat n) true false false)).2
+        (hin d (beatH true Desc.stallBeat n) true false false)
+     hResp o = .hs PID_STALL ∧ HQuiet o ∧ NoFirst o) := by
+  obtain ⟨h1, h2, h3⟩ := hr
+  obtain ⟨hst, sp, tp, ea⟩ := h
+  obtain ⟨hty, hh⟩ := hs
+  simp only at h1 h2 h3
+  subst h1 h2
+  simp_all [stdStep, hin, beatH, Desc.stallBeat, stdComb, handleNewSetup, stdStateBody, muxOut, HQuiet, NoFirst, hResp,
+    toIdle]
+  constructor <;> simp_all
+
 end LunaVerif.CtrlCyc
